@@ -123,6 +123,9 @@ type regenCase struct {
 	Dot             bool             `json:"dot"`               // generator runs inside the output directory with output dir "."
 	// NoUserFiles: the output directory holds nothing but (stale) generator-owned files, so cleaning empties it
 	NoUserFiles bool `json:"no_user_files,omitempty"`
+	// DirAtGeneratedPath: a user directory (holding a user file) sits exactly where the generator wants to write a file
+	// (verif/c20/Rec.gr.go/): the generator may fail, the directory and its content must survive
+	DirAtGeneratedPath bool `json:"dir_at_generated_path,omitempty"`
 }
 
 // populate builds the initial content of the output directory: the sampled user tree plus, below
@@ -143,6 +146,10 @@ func populate(c regenCase) *cleanmodel.Node {
 		root.Children = append(root.Children, ch)
 	}
 	pkg := d("c20", f("notes.txt", "hand written notes\x00\xff", 0o600), f("Stale.gr.go", "package c20\n// stale\n", 0o444), f("Rec.gr.go", "package c20\n// stale Rec\n", 0o444))
+	if c.DirAtGeneratedPath {
+		pkg = d("c20", f("notes.txt", "hand written notes\x00\xff", 0o600), f("Stale.gr.go", "package c20\n// stale\n", 0o444),
+			d("Rec.gr.go", f("keep.txt", "a user file in a directory named like a generated file\n", 0o644), d("deeper", f("more.go", "package deeper\n", 0o600))))
+	}
 	if c.WithTyperefImpl {
 		pkg.Children = append(pkg.Children, f(regenTyperef+".go", "package c20\n\n// hand-written custom typeref\ntype MyTyperef int64\n", 0o644))
 	}
@@ -209,6 +216,9 @@ func checkRegen(rec *stats.Recorder, c regenCase) (msg string) {
 	if c.NoUserFiles {
 		labels = append(labels, "regen_only_generator_owned_files")
 	}
+	if c.DirAtGeneratedPath {
+		labels = append(labels, "regen_user_dir_at_generated_path")
+	}
 	rec.Case(labels...)
 	key := fmt.Sprint(c.WithTyperefImpl, c.Dot)
 	if initial != nil {
@@ -225,6 +235,9 @@ func checkRegen(rec *stats.Recorder, c regenCase) (msg string) {
 			before, _ = os.Stat(out)
 		}
 		if fail := generate(specFile, cwd, arg); fail != "" {
+			if c.DirAtGeneratedPath {
+				return "" // the generator cannot write its file over a user directory: failing is fine, destroying is not
+			}
 			if strings.Contains(fail, "Could not clean up output dir") {
 				return fmt.Sprintf("G6: %s: the generator could not clean its output directory: %s", step, fail)
 			}
@@ -270,6 +283,9 @@ func checkRegen(rec *stats.Recorder, c regenCase) (msg string) {
 	s1 := snapshot(out, "")
 	if m := userIntact("first generation", s1); m != "" {
 		return m
+	}
+	if c.DirAtGeneratedPath {
+		return "" // (the generator stopped at the obstacle: there is no complete generated set to compare)
 	}
 	for _, p := range exp.Gone {
 		if got, ok := s1.Entries[p]; ok && bytes.Equal(got.Content, exp.Original.Entries[p].Content) {
@@ -334,7 +350,10 @@ func genRegenCase(t *rapid.T) regenCase {
 		c.User = &cleanmodel.Node{Dir: true, Mode: 0o755}
 		return c
 	}
-	if !c.Dot && !c.WithTyperefImpl && rapid.IntRange(0, 5).Draw(t, "out_missing") == 0 {
+	if rapid.IntRange(0, 9).Draw(t, "dir_at_generated_path") == 0 {
+		c.DirAtGeneratedPath = true
+	}
+	if !c.DirAtGeneratedPath && !c.Dot && !c.WithTyperefImpl && rapid.IntRange(0, 5).Draw(t, "out_missing") == 0 {
 		return c // output directory does not exist
 	}
 	r := rules()
@@ -371,6 +390,8 @@ func TestC20Regen(t *testing.T) {
 		{User: empty, WithTyperefImpl: true, Dot: true},
 		{User: empty, NoUserFiles: true, Dot: true},
 		{User: empty, NoUserFiles: true},
+		{User: empty, DirAtGeneratedPath: true},
+		{User: empty, DirAtGeneratedPath: true, Dot: true},
 		{User: nil},
 		{User: d("", f("README.md", "# mine\n", 0o644), d("emptydir"), d("other", f("keep.go", "package other\n", 0o600)), f("all_imports_test.gr.go", "stale", 0o444)), WithTyperefImpl: true, Dot: true},
 	}
